@@ -322,6 +322,9 @@ type iavlIterator struct {
 	// Close this to signal that state is initialized.
 	initCh chan struct{}
 
+	// Closed once the traversal goroutine has returned.
+	doneCh chan struct{}
+
 	//----------------------------------------
 	// What follows are mutable state.
 	mtx sync.Mutex
@@ -345,6 +348,7 @@ func newIAVLIterator(tree *iavl.ImmutableTree, start, end []byte, ascending bool
 		iterCh:    make(chan cmn.KVPair), // Set capacity > 0?
 		quitCh:    make(chan struct{}),
 		initCh:    make(chan struct{}),
+		doneCh:    make(chan struct{}),
 	}
 	go iter.iterateRoutine()
 	go iter.initRoutine()
@@ -353,6 +357,7 @@ func newIAVLIterator(tree *iavl.ImmutableTree, start, end []byte, ascending bool
 
 // Run this to funnel items from the tree to iterCh.
 func (iter *iavlIterator) iterateRoutine() {
+	defer close(iter.doneCh)
 	iter.tree.IterateRange(
 		iter.start, iter.end, iter.ascending,
 		func(key, value []byte) bool {
@@ -423,6 +428,9 @@ func (iter *iavlIterator) Value() []byte {
 // Implements types.Iterator.
 func (iter *iavlIterator) Close() {
 	close(iter.quitCh)
+	// Wait for the traversal goroutine: it loads tree nodes from the database, and
+	// the caller is free to commit (and prune those nodes) once Close returns.
+	<-iter.doneCh
 }
 
 //----------------------------------------
